@@ -7,13 +7,16 @@
 //!   * remove() of a vector whose region is still held     -> Err(RegionStillReferenced)
 //!   * plain import with a mismatching version             -> Err(DifferentVersion)
 //!   * rollback without a change record                    -> Err(_)
+//!   * plain import of the same name through ANOTHER storage format (a compressed type over a raw
+//!     vector, a raw type over a compressed one, another codec)  -> Err(DifferentFormat / …): no
+//!     auxiliary region (`_pages`, `_holes`) may be created or touched by the refused request
 use crate::rng::{Rng, fnv};
 use crate::util::{parse_args, quiet_panics, replay_inputs};
 use std::collections::BTreeMap;
 use std::panic::{AssertUnwindSafe, catch_unwind};
 use vecdb::{
     AnyStoredVec, AnyVec, BytesVec, Database, ImportOptions, ImportableVec, LZ4Vec, PcoVec, ReadableVec, Stamp, Version,
-    WritableVec, ZeroCopyVec,
+    WritableVec, ZeroCopyVec, ZstdVec,
 };
 
 fn regions_dump(db: &Database) -> BTreeMap<String, (usize, u64)> {
@@ -46,6 +49,26 @@ fn changes_dump(db: &Database) -> Vec<(String, u64)> {
     walk(&root, &mut v);
     v.sort();
     v
+}
+
+/// A plain import of "v" (same version) through a storage format other than the one it was created with.
+fn other_import(db: &Database, fmt: &str, pick: u64) -> (&'static str, String) {
+    let others: [&'static str; 4] = match fmt {
+        "bytes" => ["pco", "lz4", "zstd", "pco"],
+        "zc" => ["lz4", "pco", "zstd", "lz4"],
+        "pco" => ["bytes", "lz4", "zc", "zstd"],
+        _ => ["bytes", "pco", "zc", "zstd"],
+    };
+    let other = others[(pick % 4) as usize];
+    let opts = ImportOptions::new(db, "v", Version::ONE).with_saved_stamped_changes(2);
+    let r = match other {
+        "bytes" => BytesVec::<usize, u32>::import_with(opts).map(|_| ()),
+        "zc" => ZeroCopyVec::<usize, u32>::import_with(opts).map(|_| ()),
+        "pco" => PcoVec::<usize, u32>::import_with(opts).map(|_| ()),
+        "lz4" => LZ4Vec::<usize, u32>::import_with(opts).map(|_| ()),
+        _ => ZstdVec::<usize, u32>::import_with(opts).map(|_| ()),
+    };
+    (other, match r { Ok(_) => "ok".into(), Err(e) => format!("err:{}", kind(&e)) })
 }
 
 /// One case: `<fmt> <seed> <request>`; prints the verdict tokens.
@@ -138,6 +161,29 @@ fn run_case(fmt: &str, seed: u64, req: &str) -> (String, Vec<String>) {
                         viol.push("C13:import-with-mismatching-version-accepted".to_string());
                     }
                 }
+                "import_other_format" => {
+                    v.flush().unwrap();
+                    db.flush().unwrap();
+                    before_contents = v.collect();
+                    drop(v);
+                    before_regions = regions_dump(&db);
+                    before_changes = changes_dump(&db);
+                    let (other, r) = other_import(&db, fmt, rng.next());
+                    if r.starts_with("err") {
+                        let after = regions_dump(&db);
+                        if after != before_regions {
+                            let added: Vec<&String> = after.keys().filter(|k| !before_regions.contains_key(*k)).collect();
+                            let gone: Vec<&String> = before_regions.keys().filter(|k| !after.contains_key(*k)).collect();
+                            viol.push(format!("C13:refused-import-through-another-format-changed-the-regions as={other} added={added:?} removed={gone:?}"));
+                        }
+                        if changes_dump(&db) != before_changes { viol.push(format!("C13:refused-import-through-another-format-changed-the-change-files as={other}")); }
+                        match <$V>::forced_import_with(opts()) {
+                            Ok(again) => { if again.collect() != before_contents { viol.push(format!("C13:refused-import-through-another-format-changed-the-contents as={other}")); } }
+                            Err(e) => viol.push(format!("C13:vector-unusable-after-refused-import-through-another-format as={other} err={}", kind(&e))),
+                        }
+                    }
+                    result = format!("{other}:{r}");
+                }
                 _ => {
                     // rollback without a record: remove the change files first
                     for i in 0..extra { v.push(900 + i as u32); }
@@ -199,10 +245,10 @@ pub fn run(args: &[String]) -> i32 {
     }
     let mut rng = Rng::new(a.seed);
     let fmts = ["bytes", "zc", "pco", "lz4"];
-    let reqs = ["checked_push", "remove_held", "import_mismatch", "rollback_no_record"];
+    let reqs = ["checked_push", "remove_held", "import_mismatch", "rollback_no_record", "import_other_format"];
     for c in 0..a.cases {
         let fmt = fmts[(c % 4) as usize];
-        let req = reqs[((c / 4) % 4) as usize];
+        let req = reqs[((c / 4) % 5) as usize];
         exec(&format!("{c}"), fmt, rng.next() % 100000, req);
     }
     0
